@@ -2,7 +2,6 @@ NOT_APPLICABLE = {
  "C01": "Result of a single-source query is a pure function of (query, table); no schedule, clock, crash or fault in the statement. The only scheduling underneath (JSON parser pool) is decided under C23.",
  "C03": "Batch GROUP BY result is a pure function of (query, table); its history/trigger side is decided under C14/C16.",
  "C04": "Optimised vs unoptimised plan equivalence compares two deterministic evaluations of one input; nothing for a simulator to schedule or fault.",
- "C05": "Row count/order under LIMIT/ORDER BY is a pure function of (n, rows, output mode); the concurrency aspect of stopping early is decided under C29.",
  "C07": "'No panic for any query/input' quantifies over inputs only; input generation is fuzzing, not simulation.",
  "C08": "Static type soundness relates values to planned types per input; pure.",
  "C09": "Compare/Hash laws over values are algebraic and stateless.",
